@@ -663,6 +663,8 @@ def run_enum(spec, real_dir=None):
             ck.v("fault:%s:%s:open-error-swallowed" % (S("load"), D), "EACCES on open but load returned an object", rp)
         ck.stats["exhaustive_write_enum"] += int(exhaustive_w)
         ck.stats["enum_objects"] += 1
+        # 7. the object is re-tuned in place and saved again (last: it changes `obj`)
+        retuned_second_save(ck, obj, kind, fmt, desc, pseed, rp)
         return finish(ck, spec, nontrivial=True, extra={"good_b64": None})
     finally:
         fs.uninstall()
@@ -742,6 +744,68 @@ def names_and_environment(ck, obj, kind, fmt, desc, good, ref, pseed, rp):
                             os.environ[v] = old
     finally:
         fs.sim_cwd = None
+
+
+def tune_in_place(obj, kind, which):
+    """Change one numeric parameter of a live object in place, as a user re-tuning a map or
+    an evaluator does between two saves.  Returns a description, or None if nothing suitable."""
+    if kind == "featurelist":
+        maps = list(obj.feat_list)
+        if not maps:
+            return None
+        m = maps[which % len(maps)]
+        keys = sorted(k for k, v in vars(m).items() if isinstance(v, float) and v == v and abs(v) > 1e-12 and abs(v) < 1e12)
+        if not keys:
+            return None
+        k = keys[(which // 7) % len(keys)]
+        setattr(m, k, getattr(m, k) * 1.25)
+        return "%s.%s" % (type(m).__name__, k)
+    if kind == "spline":
+        cs = getattr(obj, "coeff_sets", None)
+        if not cs:
+            return None
+        a = cs[which % len(cs)]
+        if isinstance(a, np.ndarray) and a.flags.writeable and a.size:
+            a *= 1.25
+            return "coeff_sets[%d] *= 1.25" % (which % len(cs))
+        return None
+    if kind == "model":
+        nl = getattr(getattr(obj, "settings", None), "normalizers", None)
+        for m in list(getattr(nl, "_normalizers", None) or getattr(nl, "normalizers", None) or []):
+            if m is None:
+                continue
+            keys = sorted(k for k, v in vars(m).items() if isinstance(v, float) and v == v and abs(v) > 1e-12 and abs(v) < 1e12)
+            if keys:
+                setattr(m, keys[which % len(keys)], getattr(m, keys[which % len(keys)]) * 1.25)
+                return "%s.%s" % (type(m).__name__, keys[which % len(keys)])
+        return None
+    return None
+
+
+def retuned_second_save(ck, obj, kind, fmt, desc, pseed, rp):
+    """save - re-tune in place - save again: the second file must hold the object as it is now"""
+    S = lambda w: site(kind, fmt, w)  # noqa: E731
+    D = disc(desc)
+    try:
+        what = tune_in_place(obj, kind, derive("tune", json.dumps(desc, sort_keys=True)) % 64)
+        if what is None:
+            return
+        ref2 = EVAL[kind](obj, pseed) + "|" + type_sig(obj, kind)
+    except Exception:
+        return  # the re-tuned object is not a valid one: nothing to save
+    p2 = ROOT + "/retuned" + EXT[fmt]
+    st, info = ck.try_dump(obj, kind, fmt, p2)
+    if st != "ok":
+        ck.v("retune:%s:%s:dump-raises" % (S("dump"), D), "%s after %s" % (info, what), rp)
+        return
+    st, info, _ = ck.try_load(kind, fmt, p2, pseed)
+    ck.stats["saves_after_in_place_retuning"] += 1
+    if st != "ok" or info != ref2:
+        ck.v("retune:%s:%s:second-save-holds-stale-state" % (S("load"), D), "after %s: %s" % (what, st), rp)
+    for o2 in dict_roundtrip(obj, kind):
+        if not isinstance(o2, str) and EVAL[kind](o2, pseed) + "|" + type_sig(o2, kind) != ref2:
+            ck.v("retune:%s:%s:dict-holds-stale-state" % (S("from_dict"), D), "after %s" % what, rp)
+            break
 
 
 def finish(ck, spec, nontrivial, extra=None):
@@ -924,7 +988,7 @@ def gen_history(seed, nops=None):
     n = nops or rng.randint(4, 10)
     npath = rng.randint(1, 5)
     for _ in range(n):
-        c = rng.weighted([("dump", 8), ("load", 8), ("dump_fault", 4), ("redump", 4), ("load_fault", 2), ("short", 4), ("subclass", 1)])
+        c = rng.weighted([("dump", 8), ("load", 8), ("dump_fault", 4), ("redump", 4), ("load_fault", 2), ("short", 4), ("subclass", 1), ("tune", 2)])
         if c == "subclass":
             # user code extends a registered class (a map with clipping, an evaluator with
             # logging...): defining a class must not change what saved files load to
@@ -933,6 +997,8 @@ def gen_history(seed, nops=None):
         oi = rng.below(nobj)
         pi = rng.below(npath)
         op = {"op": c, "obj": oi, "path": pi}
+        if c == "tune":
+            op["which"] = rng.below(64)
         if c in ("dump_fault",):
             op["at"] = rng.below(6)
         if c == "load_fault":
@@ -979,6 +1045,20 @@ def exec_history(hist, spec, real_dir=None):
                 continue
             ob = objs[op["obj"]]
             kind, fmt = ob["kind"], ob["fmt"]
+            if op["op"] == "tune":
+                # a parameter of the live object is changed in place between saves: files written
+                # before keep the old state, files written afterwards hold the new one
+                ck.dg.add("tune", op["obj"], op["which"])
+                try:
+                    what = tune_in_place(ob["o"], kind, op["which"])
+                    if what:
+                        ob["ref"] = EVAL[kind](ob["o"], 11) + "|" + type_sig(ob["o"], kind)
+                        ck.stats["objects_retuned_in_place"] += 1
+                except Exception:
+                    ob["dead"] = True  # not a valid object any more: no later op uses it
+                continue
+            if ob.get("dead"):
+                continue
             # one path namespace per (path index); extension follows the object's format
             # (file names may contain "$", "~" and "%": a name is a name, not a shell expression)
             path = "%s/%s%s" % (ROOT, ["p0", "run.1.p1", "p2.v3.final", "set_$VERIF_TAG", "~set.${VERIF_TAG}"][op["path"] % 5], EXT[fmt])
@@ -1042,6 +1122,8 @@ def exec_history(hist, spec, real_dir=None):
                 pass
         check_held(len(hist["ops"]))
         for ob in objs:
+            if ob.get("dead"):
+                continue
             if EVAL[ob["kind"]](ob["o"], 11) + "|" + type_sig(ob["o"], ob["kind"]) != ob["ref"]:
                 ck.v("history:in-memory-object-changed:%s" % ob["kind"], "object differs after history", rp)
         # final sweep: every acknowledged path loads to its reference
